@@ -69,6 +69,7 @@ def _is_uuid(value: str) -> bool:
 def _is_date_time(value: str) -> bool:
     try:
         parse_datetime(value)
-    except (ParserError, TypeError, OverflowError):
+    except (ParserError, TypeError, ArithmeticError):
+        # Overflowing fields and impossible decimal operations on huge ones.
         return False
     return True
